@@ -9,6 +9,12 @@ inside [lower, upper]; not against D; not beyond the (alpha-scaled) full step.  
 entry whose full step leaves the box must end exactly on the bound (it may not move during backtracking).
 The update is repeated (each run_model = one more Newton iteration from the previous in-bounds point).
 
+Mechanism keys: <mechanism>:<line search>:<bound_enforcement>:<observable>.  <mechanism> is the scaling class of
+the case (no-scale / pos-scale / neg-scale(ref<ref0)); under negative scaling it is refined to
+'scaled-bounds-not-swapped(ref<ref0)' only when the line search's scaled bound arrays are seen to be the unswapped
+images of the declared bounds (diagnose_scaled_bounds; classification only, the verdict never depends on it), so
+any other defect under negative scaling keeps the generic key.
+
 Hooks (plain wrappers, observation only): openmdao.solvers.linesearch.backtracking._enforce_bounds_vector /
 _scalar / _wall count kernel executions; LinesearchSolver.solve is wrapped to count line-search entries.
 """
